@@ -723,6 +723,11 @@ bool dispatch_api(State& st, const std::string& op, const json& a, json& ret)
         if (fs::exists(dir, ec))
             for (auto& e : fs::recursive_directory_iterator(dir, ec))
             {
+                if (e.is_directory())
+                {
+                    out[fs::relative(e.path(), dir).string() + "/"] = "dir";
+                    continue;
+                }
                 if (!e.is_regular_file()) continue;
                 std::ifstream f(e.path(), std::ios::binary);
                 std::string data((std::istreambuf_iterator<char>(f)), std::istreambuf_iterator<char>());
